@@ -276,6 +276,66 @@ def symlink_probe():
     }
 
 
+def read_only_outputs(chk):
+    """A failed experiment left output that is not writable any more (a package cache it made read-only, a directory
+    it chmod'ed to 000).  `cond gc` runs WITHOUT the capabilities that let root ignore permissions (the harness runs
+    as root; an ordinary user never has them): the unrecorded output directory must be gone afterwards -- all of it --
+    and `--dry-run` must have listed it (D30: rmtree(..., ignore_errors=True) left it half deleted, reported
+    "Deleting ..." and exited 0)."""
+    import subprocess
+    from common import PY, SRC
+
+    setpriv = shutil.which("setpriv")
+    if setpriv is None or os.geteuid() != 0:
+        pre = []
+        if os.geteuid() == 0:
+            chk.coverage["read_only_outputs"] = "skipped: setpriv not found (as root, permissions are not enforced)"
+            return
+    else:
+        drop = "-dac_override,-dac_read_search,-fowner"
+        pre = [setpriv, "--bounding-set=" + drop, "--inh-caps=" + drop]
+    for variant, script in (("read-only cache", "mkdir -p $COND_OUT/cache/pkg; echo x > $COND_OUT/cache/pkg/f; chmod -R a-w $COND_OUT/cache; exit 1"),
+                            ("unreadable directory", "mkdir -p $COND_OUT/locked/in; echo y > $COND_OUT/locked/in/g; chmod 000 $COND_OUT/locked/in; chmod 000 $COND_OUT/locked; exit 1")):
+        root = implrun.make_project({"COND": 'run_experiment(name="ro", run="%s")\nrun_experiment(name="keep", run="echo kept > $COND_OUT/r")\n' % script})
+        r1 = implrun.run_cond(["run", "//:ro"], root)
+        r2 = implrun.run_cond(["run", "//:keep"], root)
+        env = dict(os.environ, PYTHONPATH=SRC)
+        co = os.path.join(root, "cond-out")
+        before = sorted(d for d in os.listdir(co) if d.startswith("ro.task."))
+        dry = subprocess.run(pre + [PY, "-m", "conductor", "gc", "-n"], cwd=root, env=env, capture_output=True, text=True)
+        real = subprocess.run(pre + [PY, "-m", "conductor", "gc", "-v"], cwd=root, env=env, capture_output=True, text=True)
+        chk.coverage["evaluations"] += 2
+        chk.count("read-only outputs", variant)
+        left = []
+        for d in before:
+            for dp, dns, fns in os.walk(os.path.join(co, d)):
+                left.append(os.path.relpath(dp, co))
+                left += [os.path.relpath(os.path.join(dp, f), co) for f in fns]
+        kept = sorted(d for d in os.listdir(co) if d.startswith("keep.task."))
+        problems = []
+        if r1.code != 1 or r2.code != 0 or len(before) != 1 or len(kept) != 1:
+            problems.append("harness: set-up failed (%r, %r, %r, %r)" % (r1.code, r2.code, before, kept))
+        else:
+            if before[0] not in dry.stdout:
+                problems.append("gc --dry-run does not list %s: %r" % (before[0], dry.stdout[-200:]))
+            if left:
+                problems.append("after `cond gc` (exit %d, said %r) the unrecorded output directory is still there: %r" % (real.returncode, real.stdout.strip()[-80:], left[:6]))
+            if not os.path.isfile(os.path.join(co, kept[0], "r")):
+                problems.append("the recorded version %s was damaged" % kept[0])
+        try:  # whatever is left: make it removable for the scratch clean-up
+            subprocess.run(["chmod", "-R", "u+rwx", co], check=False)
+        except OSError:
+            pass
+        for msg in problems:
+            chk.violation("impl-violation", "a failed experiment left %s: %s" % (variant, msg),
+                          {"input": {"part": "read-only-outputs", "variant": variant, "task": script, "commands": [["run", "//:ro"], ["run", "//:keep"], ["gc", "-n"], ["gc", "-v"]],
+                                     "without_capabilities": bool(pre)},
+                           "impl_observation": {"gc_exit": real.returncode, "gc_stdout": real.stdout[-300:], "gc_stderr": real.stderr[-300:], "left": left[:10]}, "oracle_verdict": msg},
+                          match_key={"tree": "read-only-outputs"}, size=1)
+        if not problems:
+            chk.coverage["traces_validated_against_impl"] += 2
+
+
 def run(tier, seed, replay=None):
     chk = Check("C13", tier, seed)
     chk.build_proofs(["Model/Gc.vo", "Lib/Cmp.vo"])
@@ -289,6 +349,9 @@ def run(tier, seed, replay=None):
 
     rn = Runner(chk)
 
+    if replay is not None and replay.get("input", {}).get("part") == "read-only-outputs":
+        read_only_outputs(chk)
+        return chk.finish()
     if replay is not None:
         inp = replay["input"]
         tree = U.tree_from_json(inp["tree"])
@@ -331,6 +394,11 @@ def run(tier, seed, replay=None):
         "non-canonical and malformed rows) and trees left by real `cond run` histories; non-trivial = at least one directory must be deleted AND at least one "
         "version-like directory must be kept; distinct = by (ordered tree, rows, verbose)"
     )
+    chk.assumptions += [
+        "one cond process at a time per project: a `cond gc` that runs while a `cond run` is executing an experiment sees that execution's directory as unrecorded and deletes it (the row is inserted afterwards and then names a directory that is gone); the property quantifies over SEQUENCES of invocations",
+        "the files under cond-out belong to the invoking user (gc makes a directory accessible to its owner before retrying a failed removal; somebody else's files cannot be removed and the error is reported)",
+    ]
+    read_only_outputs(chk)
     probe = symlink_probe()
     chk.coverage["symlink_probe"] = probe
     if probe["observed"] != "not followed":
